@@ -316,21 +316,21 @@ def examine(ctx, hist, verd_of, where, stats, seen_sites, replayer=None):
         skey = (rec["site"], tuple(sorted(x for x in rec["tags"] if not x.startswith(("window_", "via_")))))
         stats["failing_events"] += 1
         seen_sites[skey] = seen_sites.get(skey, 0) + 1
-        if seen_sites[skey] > 3 or stats["failing_events_reported"] >= 40:
+        if seen_sites[skey] > 3 or stats["violations_reported"] >= 40:
             stats["failing_events_not_reported_again"] += 1
             continue
-        stats["failing_events_reported"] += 1
         ops_only = ops_of(hist[: i + 1])
         shrunk, reproduced = ops_only, None
         if replayer is not None and ctx.match_known(rec) is None:
             shrunk, reproduced = replayer.shrink(ops_only, v[1].split()[0])
         what = "C06 %s | event: %s | after %d journal lines (%d operations after shrinking)" % (
             v[1][:400], l[:200], i, len(shrunk))
-        ctx.violation(what, {
+        if ctx.violation(what, {
             "history": hist[: i + 1], "ops": shrunk, "ops_before_shrinking": len(ops_only), "reproduced_by_replay": reproduced,
             "verdict": v[1], "site": rec["site"], "tags": rec["tags"], "found_at": where,
             "how_to_replay": "bin/check C06 --replay <this file>   (or: printf '%s\\n' <ops> > f.ops ; build/c06_mip-* --replay f.ops | lean/.lake/build/bin/pplv_mip)",
-        }, found_input=True, record=rec)
+        }, found_input=True, record=rec):
+            stats["violations_reported"] += 1
 
 
 def replay(ctx, path):
@@ -395,7 +395,7 @@ def run(ctx):
     stats_corpus = dict(stats)
 
     # ---- 2. seeded histories, in parallel ---------------------------------------------------------
-    n_hist = int(os.environ.get("VERIF_C06_HISTS", "0")) or (1100 if quick else 30000)
+    n_hist = int(os.environ.get("VERIF_C06_HISTS", "0")) or (1600 if quick else 30000)
     nproc = 12
     per = (n_hist + nproc - 1) // nproc
     maxdim = 4
